@@ -551,6 +551,25 @@ class ModelTie:
                 cols = [fc(l) for l in a.get('cols', [])]
                 edge = [fc(l) for l in a.get('edge', [])]
                 b = a.get('bisect', False)
+                if not b:
+                    # refine() walks the outer boundary; where the boundary touches itself (a node with more than two
+                    # boundary sides, e.g. after deleting a column) the walk takes whichever column the node's column
+                    # *set* yields first: not reproducible, not compared
+                    cnt = {}
+                    for c in g.columnlist:
+                        k = len(c.node)
+                        for i in range(k):
+                            e = frozenset((id(c.node[i]), id(c.node[(i + 1) % k])))
+                            cnt[e] = cnt.get(e, 0) + 1
+                    deg = {}
+                    for e, n in cnt.items():
+                        if n == 1:
+                            for x in e:
+                                deg[x] = deg.get(x, 0) + 1
+                    if any(v > 2 for v in deg.values()):
+                        self.dead = True
+                        self.stats['skipped:pinched-boundary'] = self.stats.get('skipped:pinched-boundary', 0) + 1
+                        return None
                 mode = 'n' if not b else ('t' if b is True else b)
                 return 'refine %s %d %s %d %s' % (mode, len(cols), ' '.join(self.mcol(c) for c in cols),
                                                   len(edge), ' '.join(self.mcol(c) for c in edge))
